@@ -120,6 +120,94 @@ def set_mode_defuse(cls):
     raise Reject("Calendar.set_mode not found")
 
 
+SM_INPUTS = ("DAYS_IN_MONTHS", "DAYS_IN_MONTHS_LEAP")
+SM_NEEDED = ("SECONDS_IN_HOUR", "SECONDS_IN_DAY", "MONTHS_IN_YEAR", "DAYS_IN_YEAR", "ROUGH_DAYS_IN_YEAR",
+             "DAYS_IN_YEAR_LEAP", "MAX_DAYS_IN_MONTH", "MAX_WEEKS_IN_YEAR")
+SM_CLASS_INTS = ("SECONDS_IN_MINUTE", "MINUTES_IN_HOUR", "HOURS_IN_DAY", "DAYS_IN_WEEK", "ROUGH_DAYS_IN_MONTH")
+
+
+def set_mode_exprs(cls, env):
+    """The integer-valued attributes Calendar.set_mode derives, as Gallina functions of the two month tables.
+
+    -> (list of (attr, coq term), list of skipped attrs).  Accepted right-hand sides: int literals, self.X (X a
+    class-level int constant, one of the two month tables under sum/max/len, or an attribute derived earlier),
+    + - * //, sum(self.T), max(self.T), len(self.T).  Anything else is skipped; a skipped attribute that the
+    model needs (SM_NEEDED) is a rejection."""
+    sm = None
+    for stmt in cls.body:
+        if isinstance(stmt, ast.FunctionDef) and stmt.name == "set_mode":
+            sm = stmt
+    if sm is None:
+        raise Reject("Calendar.set_mode not found")
+    done, skipped = [], []
+    names = {}
+
+    class Skip(Exception):
+        pass
+
+    def selfattr(n):
+        if isinstance(n, ast.Attribute) and isinstance(n.value, ast.Name) and n.value.id == "self":
+            return n.attr
+        return None
+
+    def tr(n):
+        if isinstance(n, ast.Constant) and isinstance(n.value, int) and not isinstance(n.value, bool):
+            return coq_z(n.value)
+        a = selfattr(n)
+        if a is not None:
+            if a in names:
+                return "(sm_%s dim diml)" % a
+            if a in SM_CLASS_INTS and isinstance(env.get(a), int):
+                return a
+            raise Skip()
+        if isinstance(n, ast.BinOp):
+            op = {ast.Add: "+", ast.Sub: "-", ast.Mult: "*", ast.FloorDiv: "/"}.get(type(n.op))
+            if op is None:
+                raise Skip()
+            return "(%s %s %s)" % (tr(n.left), op, tr(n.right))
+        if isinstance(n, ast.Call) and isinstance(n.func, ast.Name) and len(n.args) == 1 and not n.keywords:
+            t = selfattr(n.args[0])
+            tab = {"DAYS_IN_MONTHS": "dim", "DAYS_IN_MONTHS_LEAP": "diml"}.get(t)
+            if tab is None:
+                raise Skip()
+            if n.func.id == "sum":
+                return "(fold_left Z.add %s 0)" % tab
+            if n.func.id == "max":
+                return "(fold_left Z.max %s 0)" % tab
+            if n.func.id == "len":
+                return "(Z.of_nat (List.length %s))" % tab
+        raise Skip()
+
+    assigned_inputs = set()
+    for st in sm.body:
+        if not isinstance(st, ast.Assign) or len(st.targets) != 1:
+            continue
+        a = selfattr(st.targets[0])
+        if a is None:
+            continue
+        if a in SM_INPUTS:
+            # must be assigned from the local chosen by the mode, before anything is derived
+            if done or not isinstance(st.value, ast.Name):
+                raise Reject("set_mode: %s is not assigned from a local before the derived attributes" % a)
+            assigned_inputs.add(a)
+            continue
+        if a in names:
+            raise Reject("set_mode assigns %s twice" % a)
+        try:
+            term = tr(st.value)
+        except Skip:
+            skipped.append(a)
+            continue
+        names[a] = True
+        done.append((a, term))
+    if assigned_inputs != set(SM_INPUTS):
+        raise Reject("set_mode does not assign both month tables")
+    missing = [a for a in SM_NEEDED if a not in names]
+    if missing:
+        raise Reject("set_mode: cannot translate the derivation of %s" % ", ".join(missing))
+    return done, skipped
+
+
 def gen_cal_tables():
     with open(os.path.join(SRC, "data.py")) as fh:
         tree = ast.parse(fh.read())
@@ -167,6 +255,12 @@ def gen_cal_tables():
         body.append("(* Calendar.set_mode: ordered (attribute assigned, self attributes read) *)")
         body.append("Definition SET_MODE_DEFUSE : list (string * list string) :=\n  %s." % coq_list(
             "(%s, %s)" % (coq_str(a), coq_list(coq_str(r) for r in rs)) for a, rs in du))
+        exprs, skipped = set_mode_exprs(cls, env)
+        body.append("(* Calendar.set_mode: the integer attributes it derives, as functions of the two month tables *)")
+        for a, term in exprs:
+            body.append("Definition sm_%s (dim diml : list Z) : Z := %s." % (a, term))
+        body.append("Definition SET_MODE_TRANSLATED : list string := %s." % coq_list(coq_str(a) for a, _ in exprs))
+        body.append("Definition SET_MODE_NOT_TRANSLATED : list string := %s." % coq_list(coq_str(a) for a in skipped))
         consts = sorted(k for k, v in env.items() if k.isupper())
         body.append("Definition CLASS_CONSTANTS : list string := %s." % coq_list(coq_str(c) for c in consts))
         body.append("Definition translator_ok_cal : bool := true.")
